@@ -1434,6 +1434,37 @@ def fn_site(b, g, env, pool, prefix, subs_in=()):
     return [['assign', var(lhs), call]], 'plain'
 
 
+def witnesses(stmts, env):
+    """
+    statements that fold every variable a site may have defined (assignment targets, designators passed to a CALL)
+    into the accumulators lacci / laccr right behind the site, so that a later site overwriting the same variable
+    does not hide a wrong value
+    """
+    from .model import walk_stmts
+    names = []
+
+    def base(d):
+        if isinstance(d, list) and d and d[0] == 'd':
+            n = d[1][0][0]
+            if n not in names:
+                names.append(n)
+    for _, s in walk_stmts(stmts):
+        if s[0] == 'assign':
+            base(s[1])
+        elif s[0] == 'call':
+            for a in list(s[2]) + [s[3][k] for k in sorted(s[3])]:
+                base(a)
+    out = []
+    for n in names:
+        v = env.vars.get(n)
+        if v is None or v.get('fuel') or v.get('path') or n in env.loopvars or v['type'] not in ('int', 'real'):
+            continue
+        e = ['f', 'sum', [var(n)], {}] if v['dims'] else var(n)
+        acc = 'lacci' if v['type'] == 'int' else 'laccr'
+        out.append(['assign', var(acc), ['b', '+', var(acc), e]])
+    return out
+
+
 def _is_const(e):
     """expression JSON without any variable / function reference"""
     if isinstance(e, list):
@@ -1626,6 +1657,8 @@ def build(spec):
     # ---- sites + filler
     gsite = b.g('sites')
     body = list(prologue)
+    # accumulators that only the witness statements touch (not in env: never a target, an actual or a host variable)
+    body += [['assign', var('lacci'), lit(0)], ['assign', var('laccr'), ['r', '0.0']]]
     # every program has one unconditional top-level site of every kind (in a drawn order), so that every entry
     # point has something to rewrite that executes; further sites are drawn and may sit in loops / IF blocks
     kinds = ['msub', 'isub', 'fun', 'efun', 'sf', 'const'] + (['ifun'] if int_funs else [])
@@ -1747,8 +1780,11 @@ def build(spec):
             b.use('site_in_if')
         body += filler(b.n.get('fill', 1))
         body += stmts
+        body += witnesses(stmts, env)
         meta_sites.append({'kind': kind, 'form': form, 'where': where})
     body += filler(b.n.get('fill', 1))
+    body.append(['assign', var('yi0'), ['b', '+', var('yi0'), var('lacci')]])
+    body.append(['assign', var('yr0'), ['b', '+', var('yr0'), var('laccr')]])
     # epilogue: make every local observable through the outputs
     for nm, v in env.vars.items():
         if nm in args or v.get('ro') or v.get('fuel') or nm in penv:
@@ -1768,6 +1804,7 @@ def build(spec):
     used_sub = sorted({s['name'] for s in subs})
     huse = {'module': 'hmod', 'only': [[n, None] for n in used_fun + used_sub]}
     cuse = {'module': 'cmod', 'only': [[nm, None] for nm, _, _ in params]}
+    decls += [decl('lacci', 'int'), decl('laccr', 'real')]
     kdecls = decls[:len(args)] + [d for d in decls[len(args):] if d.get('param') is not None] + \
         [d for d in decls[len(args):] if d.get('param') is None] + sf_decls
     kern = routine('kernel', args, kdecls, body, contains=ints_r, stmtfuncs=sf_defs)
